@@ -417,7 +417,35 @@ func (ex *Exec) enterLoop(st *State, h *ssa.BasicBlock, pred *ssa.BasicBlock) bo
 			}
 		}
 	}
+	// a counted loop written by hand (i := 0; ...; i++) has the same iteration counter a range loop has
+	var counted *ssa.Phi
+	hasRange := false
+	for _, in := range h.Instrs {
+		phi, ok := in.(*ssa.Phi)
+		if !ok {
+			break
+		}
+		if phi.Comment == "rangeindex" {
+			hasRange = true
+		}
+		if isCountedPhi(phi, h) {
+			if counted != nil {
+				counted = nil
+				hasRange = true // ambiguous: no iter
+				break
+			}
+			counted = phi
+		}
+	}
+	if hasRange {
+		counted = nil
+	}
 	setPhis := func(m map[*ssa.Phi]*Val) {
+		if counted != nil {
+			if v, ok := m[counted]; ok {
+				fr.names["iter"] = namedVal{v: scalar(v.T, types.Typ[types.Int])}
+			}
+		}
 		for phi, v := range m {
 			fr.vals[phi] = v
 			if phi.Comment != "" {
@@ -507,6 +535,37 @@ func (ex *Exec) enterLoop(st *State, h *ssa.BasicBlock, pred *ssa.BasicBlock) bo
 	for phi, v := range hv {
 		if phi.Comment == "rangeindex" {
 			st.assume(Ge(v.T, IntLit(-1, SInt)))
+		}
+		if isCountedPhi(phi, h) {
+			// starts at 0 and only ever grows by one (mathematical integers: A-int)
+			st.assume(Ge(v.T, IntLit(0, SInt)))
+		}
+	}
+	return true
+}
+
+// isCountedPhi: an int phi at a loop head that enters as the constant 0 and is incremented by 1 on every back edge.
+func isCountedPhi(phi *ssa.Phi, h *ssa.BasicBlock) bool {
+	b, ok := phi.Type().Underlying().(*types.Basic)
+	if !ok || b.Kind() != types.Int {
+		return false
+	}
+	for i, p := range h.Preds {
+		e := phi.Edges[i]
+		if isBackEdge(p, h) {
+			bo, ok := e.(*ssa.BinOp)
+			if !ok || bo.Op != token.ADD || bo.X != ssa.Value(phi) {
+				return false
+			}
+			c, ok := bo.Y.(*ssa.Const)
+			if !ok || c.Value == nil || c.Int64() != 1 {
+				return false
+			}
+		} else {
+			c, ok := e.(*ssa.Const)
+			if !ok || c.Value == nil || c.Int64() != 0 {
+				return false
+			}
 		}
 	}
 	return true
